@@ -50,10 +50,10 @@ def filterE (f : Cell → Except Err Bool) : List Cell → Except Err (List Cell
 def gridCells (k : Nat) : List Cell :=
   (List.range (k+1)).flatMap fun x => (List.range (k+1)).map fun y => (x, y)
 
-/-- `MeshPatt.sub_mesh_pattern(indices)` -/
+/-- `MeshPatt.sub_mesh_pattern(indices)` (no special case for an empty index set: the general path
+    then tests the whole grid `(0,0)…(n,n)` as the single region) -/
 def subMeshPattern (m : Mesh) (indices : List Nat) : Except Err Mesh :=
-  if indices.mergeSort (· ≤ ·) = [] then .ok ⟨[], []⟩
-  else if (indices.mergeSort (· ≤ ·)).any (fun i => m.pattern.length ≤ i) then .error .indexError
+  if (indices.mergeSort (· ≤ ·)).any (fun i => m.pattern.length ≤ i) then .error .indexError
   else
     match filterE (subCellKept m
         ([0] ++ (indices.mergeSort (· ≤ ·)).map (· + 1) ++ [m.pattern.length + 1])
